@@ -117,6 +117,34 @@ def start_at_optimum_specs(ctx, n):
     return specs
 
 
+def large_offset_specs(ctx, n):
+    """Deterministic targets whose values are large relative to the late improvements (a negative log-likelihood with a big constant): runs
+    long enough that strictly better points differ from the incumbent by ~1e-8 |f| and less."""
+    from .. import gen
+    rng = ctx.sub_rng("c04offset")
+    specs = []
+    for i in range(n):
+        sp = gen.make_spec(rng, D=rng.choice([1, 2, 2]), mode="det", geom=rng.choice(["box", "tight"]), opt_loc="inside", cons=None, target=rng.choice(["quad", "quad", "abs"]))
+        sp["yoffset"] = [2.5e4, 1e6, -5e4, 1e3, 3e8][i % 5]
+        sp["options"] = {"max_fun_evals": rng.choice([120, 160])}
+        specs.append(sp)
+    return specs
+
+
+def typed_value_specs(ctx):
+    """Deterministic integer-valued targets (plateaus, ties) that return their value as a NumPy scalar of a non-float real type."""
+    from .. import gen
+    rng = ctx.sub_rng("c04dtype")
+    specs = []
+    for dt in ("uint64", "uint8", "int64", "float32", "int32", "uint16"):
+        sp = gen.make_spec(rng, D=rng.choice([1, 2]), mode="det", geom="box", opt_loc="inside", cons=None, target=rng.choice(["plateau", "ties"]))
+        sp["x0_unit"] = [0.9 if c < 0 else -0.9 for c in sp["c_unit"]]        # start far from the optimum
+        sp["ydtype"] = dt
+        sp["options"] = {"n_search": 32, "max_fun_evals": 40}
+        specs.append(sp)
+    return specs
+
+
 def multi_improve_specs(ctx, n):
     """Deterministic runs that start far from the optimum, poll completely (complete_poll) and stop after very few iterations: several
     points of one poll improve on the incumbent, in any order, and the run returns right afterwards - the returned point must be the
@@ -187,6 +215,8 @@ def run(ctx):
     runlevel.with_extra(ctx, "c04opt", lambda: start_at_optimum_specs(ctx, 6 if ctx.quick else 60))
     runlevel.with_extra(ctx, "c04multi", lambda: multi_improve_specs(ctx, 12 if ctx.quick else 100))
     runlevel.with_extra(ctx, "c04spell", lambda: spelling_specs(ctx))
+    runlevel.with_extra(ctx, "c04offset", lambda: large_offset_specs(ctx, 5 if ctx.quick else 40))
+    runlevel.with_extra(ctx, "c04dtype", lambda: typed_value_specs(ctx))
     stats, samples = run_checks(ctx, rep)
     dstats = runlevel.det_replay(ctx, rep)
     rep.coverage = {
